@@ -18,11 +18,28 @@ THEOREMS = ["C16_data_frame", "C16_curves_frame", "C16_params_frame", "C16_well_
 ASSUMPTIONS = [
     "'to format precision' = the text \"%.5f\" % x that CPython prints (oracle fmtv / fmt_diff)",
     "STRT/STOP/STEP keyword arguments are left to lasio (None), as the property says",
+    "numeric/NaN index: the index curve holds numbers (NaN included, class NAN_INDEX); a TEXT index column is outside the writer model "
+    "(lasio raises TypeError or skips the refresh) and is not generated; text curves sit in non-index positions only",
+    "a write() that raises (missing STRT/STOP/STEP item, all curves deleted) is outside the statement: the direct oracle says nothing, "
+    "but model and implementation must agree that it raises (correspondence)",
 ]
 
 WOPTS = [dict(), dict(version=1.2), dict(version=2), dict(wrap=True), dict(wrap=False), dict(version=1.2, wrap=True, data_width=40),
          dict(fmt="%.3f"), dict(len_numeric_field=-1, spacer="\t"), dict(mnemonics_header=True), dict(fmt="%.2f", column_fmt={0: "%.4f"}),
-         dict(header_width=30, data_section_header="~A")]
+         dict(header_width=30, data_section_header="~A"),
+         dict(fmt="%g"), dict(fmt="%d"), dict(fmt="%.3e"), dict(fmt="%10.4g", len_numeric_field=-1), dict(fmt="%.5f", column_fmt={0: "%d"}),
+         dict(column_fmt={1: "%.1f", 2: "%d"}), dict(fmt="%.3f", column_fmt={0: "%.5f", 1: "%.2e", 3: "%g"}),
+         dict(lhs_spacer=""), dict(lhs_spacer="  ", spacer="  ", wrap=True), dict(lhs_spacer="", len_numeric_field=-1, mnemonics_header=True)]
+
+# read options of the read that builds the object
+ROPTS = [dict(), dict(), dict(), dict(), dict(mnemonic_case="preserve"), dict(mnemonic_case="lower"), dict(engine="normal"),
+         dict(ignore_header_errors=True), dict(null_policy="none"), dict(mnemonic_case="preserve", engine="normal", ignore_header_errors=True)]
+
+# classes that wait for the writer model (Model/Writer.v, Corr/WriteShow.v): switched on when the model agent says so
+NAN_INDEX = False            # NaN inside the index ([1.0, nan, 3.0], NaN first / last), by edit, in the text, or scratch-built
+ZERO_CURVES = False          # every curve deleted after a read (lasio raises IndexError); needs the pipeline op ED
+SCRATCH_BUILT_MODEL = False  # lasio.LASFile() + append_curve goes through the model as well (needs the pipeline op EB); the
+                             # implementation-side oracle runs on these objects in any case
 
 
 def index_tokens(rng, n):
@@ -43,10 +60,52 @@ def index_tokens(rng, n):
     return out
 
 
+TEXT_TOKENS = ["abc", "N/A", "sand", "x1", "shale-2", "A"]
+
+
+def nan_tokens(rng, toks):
+    """put NaN into an index: in the middle, first, second or last position"""
+    toks = list(toks)
+    n = len(toks)
+    for k in {rng.choice([0, 1, n - 1, n // 2]) % n for _ in range(rng.choice([1, 1, 2]))}:
+        toks[k] = "nan"
+    return toks
+
+
+def gen_scratch(rng):
+    """lasio.LASFile() + append_curve (default header: STRT/STOP/STEP are NaN, index_initial is None), written 1-3 times"""
+    nr = rng.choice([1, 2, 3, 6])
+    nc = rng.randint(0 if ZERO_CURVES else 1, 4)
+    idx = index_tokens(rng, nr)
+    if NAN_INDEX and rng.random() < 0.3:
+        idx = nan_tokens(rng, idx)
+    curves = []
+    for j in range(nc):
+        if j == 0:
+            toks = idx
+        elif rng.random() < 0.15:
+            toks = [rng.choice(TEXT_TOKENS) for _ in range(nr)]
+        else:
+            toks = [lasgen.num_token(rng, "fixed") if rng.random() > 0.15 else "nan" for _ in range(nr)]
+        name = rng.choice(["DEPT", "DEPTH", "TIME"]) if j == 0 else rng.choice(["GR", "RHOB", "GR", "", "X1"])
+        curves.append((name, rng.choice(["m", "FT", ""]), toks))
+    ops = [("EB", curves)]
+    wkw = copy.deepcopy(rng.choice(WOPTS))
+    for _ in range(rng.choice([1, 2, 3])):
+        ops.append(("W", wkw))
+    return "", ops, "scratch_built", False, {"scratch_built"}
+
+
 def gen_case(rng):
+    if rng.random() < 0.08:
+        return gen_scratch(rng)
+    feats = set()
     s = lasgen.basic_spec(rng, nrows=rng.choice([1, 2, 3, 6]))
     nr, nc = len(s.rows), len(s.rows[0])
     idx = index_tokens(rng, nr)
+    if NAN_INDEX and rng.random() < 0.06:
+        idx = nan_tokens(rng, idx)
+        feats.add("nan_index_in_text")
     for i in range(nr):
         s.rows[i][0] = idx[i]
     # STRT/STOP/STEP in the file: consistent with the data or not
@@ -67,9 +126,37 @@ def gen_case(rng):
         for j in range(1, nc):
             if rng.random() < 0.15:
                 row[j] = "-999.25"
+    # a text curve in a non-index position
+    if nc > 1 and rng.random() < 0.12:
+        j = rng.randrange(1, nc)
+        for row in s.rows:
+            row[j] = rng.choice(TEXT_TOKENS)
+        feats.add("text_curve")
+    # duplicated / blank curve mnemonics
+    if nc > 1 and rng.random() < 0.15:
+        m, u, v, d = s.curves[-1]
+        s.curves[-1] = (rng.choice(["", s.curves[0][0], s.curves[max(0, nc - 2)][0]]), u, v, d)
+        feats.add("dup_or_blank_mnemonic")
+    if rng.random() < 0.12:
+        s.custom.append((rng.choice(["~Tops", "~Inclinometry_Info"]), [("T1", "M", "5", "top"), ("T2", "M", "7.5", "base"), ("T1", "", "x", "again")]))
+        s.order.append(("X", 0))
+        feats.add("custom_section")
+    # missing STRT / STOP / STEP (write raises) or NULL (NaN samples are then written as ... whatever lasio and the model agree on)
+    r = rng.random()
+    if r < 0.06:
+        drop = rng.choice(["STRT", "STOP", "STEP"])
+        s.well = [w for w in s.well if w[0] != drop]
+        feats.add("missing_" + drop)
+    elif r < 0.14:
+        s.null = None
+        feats.add("missing_NULL")
     text = lasgen.render(s)[0]
-    ops = [("R", {})]
-    mode = rng.choice(["read", "read", "scratch", "edit_index", "edit_index_small", "edit_index_small", "edit_curve", "edit_header"])
+    rkw = dict(rng.choice(ROPTS))
+    if rkw:
+        feats.add("read_options")
+    ops = [("R", rkw)]
+    mode = rng.choice(["read", "read", "scratch", "edit_index", "edit_index_small", "edit_index_small", "edit_curve", "edit_header",
+                       "edit_header", "edit_text_curve", "edit_nan_index", "delete_all"])
     if mode == "scratch":
         ops.append(("EN",))
     elif mode == "edit_index":
@@ -78,16 +165,28 @@ def gen_case(rng):
     elif mode == "edit_index_small":
         # a small depth correction (tiny relative to the depth values): still an edit of the index
         delta = rng.choice([0.05, 0.001, 1e-4, -0.02])
-        ops.append(("ES", 0, [repr(round(float(t) + delta, 6)) for t in idx]))
+        ops.append(("ES", 0, [t if t == "nan" else repr(round(float(t) + delta, 6)) for t in idx]))
     elif mode == "edit_curve" and nc > 1:
         ops.append(("ES", nc - 1, [lasgen.num_token(rng, "fixed") for _ in range(nr)]))
+    elif mode == "edit_text_curve" and nc > 1:
+        ops.append(("ES", rng.randrange(1, nc), [rng.choice(TEXT_TOKENS) for _ in range(nr)]))
+    elif mode == "edit_nan_index" and NAN_INDEX:
+        ops.append(("ES", 0, nan_tokens(rng, index_tokens(rng, nr))))
+    elif mode == "delete_all" and ZERO_CURVES:
+        for _ in range(max(nc, len(s.curves))):
+            ops.append(("ED", 0))
     elif mode == "edit_header":
-        ops.append(("EV", "W", "STOP", rng.choice(["77", "text"])))
+        ops.append(rng.choice([("EV", "W", "STOP", "77"), ("EV", "W", "STOP", "text"), ("EV", "W", "STRT", "0.5"), ("EV", "W", "STEP", "9"),
+                               ("EV", "W", "STEP", "text"), ("EV", "W", "NULL", "-1"), ("EV", "W", "COMP", "x y"),
+                               ("EV", "P", (s.params[0][0] if s.params else "BHT0"), "12"), ("EV", "C", s.curves[0][0], "7"),
+                               ("EV", "V", "WRAP", "YES")]))
+    else:
+        mode = "read"
     wkw = copy.deepcopy(rng.choice(WOPTS))
     nw = rng.choice([1, 2, 3])
     for _ in range(nw):
         ops.append(("W", wkw))
-    return text, ops, mode, consistent
+    return text, ops, mode, consistent, feats
 
 
 def snap(las):
@@ -110,8 +209,16 @@ def apply_ops_until_write(text, ops):
             las = lasio.read(text, **op[1])
         elif op[0] == "EN":
             las.index_initial = None
+        elif op[0] == "ED":
+            del las.curves[op[1]]
+        elif op[0] == "EB":
+            las = wm.build_scratch(op[1])
         elif op[0] == "ES":
-            las.curves[op[1]].data = np.array([float(t) for t in op[2]])
+            vals = [wm.tocell(t) for t in op[2]]
+            if all(isinstance(v, float) for v in vals):
+                las.curves[op[1]].data = np.array(vals, dtype=float)
+            else:
+                las.curves[op[1]].data = np.array([str(v) if not isinstance(v, str) else v for v in vals])
         elif op[0] == "EV":
             try:
                 las.sections[wm.SECT[op[1]]][op[2]].value = op[3]
@@ -122,11 +229,13 @@ def apply_ops_until_write(text, ops):
     return las
 
 
-def oracle(text, ops):
+def oracle(text, ops, detail=None):
     import lasio
     try:
         las = apply_ops_until_write(text, ops)
     except Exception as e:
+        if detail is not None:
+            detail["rejected"] = "building the object raised %s: %s" % (type(e).__name__, str(e)[-80:])
         return None
     wkw = [o for o in ops if o[0] == "W"][0][1]
     nw = len([o for o in ops if o[0] == "W"])
@@ -142,7 +251,13 @@ def oracle(text, ops):
             outs.append(buf.getvalue())
             snaps.append(snap(las))
     except Exception as e:
+        if detail is not None:
+            detail["rejected"] = "write raised %s: %s" % (type(e).__name__, str(e)[-80:])
+        if outs:
+            return "write() number %d raised %s: %s after an earlier write() of the same object succeeded" % (len(outs) + 1, type(e).__name__, str(e)[-80:])
         return None          # not a writable file (e.g. missing STOP): outside the property
+    if detail is not None:
+        detail["outs"], detail["snaps"] = outs, snaps
     after = snaps[0]
     # 1. frame
     if before["__data"] != after["__data"]:
@@ -221,17 +336,30 @@ def run(ctx):
     n = 2500 if ctx.thorough else 170
     cases, meta, kinds = [], [], set()
     hist = {}
+    unexpected = []
     for _ in range(n):
-        text, ops, mode, consistent = gen_case(rng)
-        bad = oracle(text, ops)
+        text, ops, mode, consistent, feats = gen_case(rng)
+        detail = {}
+        bad = oracle(text, ops, detail)
         if bad:
             res.oracle_violations.append({"payload": {"text": text, "ops": ops}, "what": bad})
+        wkw = [o for o in ops if o[0] == "W"][0][1]
+        kinds.add((mode, consistent, tuple(sorted((a, str(b)) for a, b in wkw.items())), len([o for o in ops if o[0] == "W"]),
+                   tuple(sorted(feats))))
+        hist[mode] = hist.get(mode, 0) + 1
+        for f in feats:
+            hist["+" + f] = hist.get("+" + f, 0) + 1
+        if "rejected" in detail:
+            # a write that raises is outside the statement; it is expected for a missing STRT/STOP/STEP item and for a LASFile
+            # without curves only - anything else would shrink the sample silently
+            hist["write_raises"] = hist.get("write_raises", 0) + 1
+            if not (any(f.startswith("missing_ST") for f in feats) or mode == "delete_all"):
+                unexpected.append("%s %r: %s" % (mode, sorted(feats), detail["rejected"]))
+        if mode == "scratch_built" and not SCRATCH_BUILT_MODEL:
+            continue
         c, r = wm.coq_case(text, ops)
         cases.append(c)
         meta.append((text, ops))
-        wkw = [o for o in ops if o[0] == "W"][0][1]
-        kinds.add((mode, consistent, tuple(sorted((a, str(b)) for a, b in wkw.items())), len([o for o in ops if o[0] == "W"])))
-        hist[mode] = hist.get(mode, 0) + 1
     for name, text in corpus_files.corpus():
         ops = [("R", {}), ("W", {}), ("W", {})]
         bad = oracle(text, ops)
@@ -248,13 +376,18 @@ def run(ctx):
             res.mismatches.append({"text": meta[i][0], "ops": repr(meta[i][1])})
     else:
         res.corr_error = "model not built"
-    res.cases = len(cases)
+    if unexpected:
+        res.corr_error = ((res.corr_error + "; ") if res.corr_error else "") + \
+            "%d object(s) built as writable could not be written: %s" % (len(unexpected), "; ".join(unexpected[:3]))
+    res.cases = len(cases) + (0 if SCRATCH_BUILT_MODEL else hist.get("scratch_built", 0))
     res.distinct_nontrivial = len(kinds)
-    res.rule = ("LASFiles read from generated text (STRT/STOP consistent with the data or not; increasing, decreasing, constant, "
-                "irregular, single-sample indexes; empty values with units), then left alone / index_initial cleared (built from "
-                "scratch) / index replaced / another curve replaced / header edited, written 1-3 times with one of 11 option sets; "
-                "plus the example corpus written twice; observed: every text and the full snapshot after the last write; "
-                "non-trivial = distinct (edit mode, consistent?, option set, write count)")
+    res.rule = ("LASFiles read (default and other read options) from generated text (STRT/STOP consistent with the data or not; "
+                "increasing, decreasing, constant, irregular, single-sample indexes; empty values with units; text curves, duplicated / "
+                "blank curve mnemonics, custom sections, missing STRT/STOP/STEP/NULL items), then left alone / index_initial cleared / "
+                "index replaced / another curve replaced by numbers or text / one of ten header edits, and LASFiles built from scratch "
+                "(lasio.LASFile() + append_curve), written 1-3 times with one of 21 option sets (%f %e %g %d formats, column_fmt for any "
+                "column, lhs_spacer); plus the example corpus written twice; observed: every text and the full snapshot after the last "
+                "write; non-trivial = distinct (edit mode, consistent?, option set, write count, features)")
     res.samples = [repr(meta[0][1]), repr(meta[1][1])]
     res.histogram = hist
     return res
@@ -264,6 +397,8 @@ def fix_ops(ops):
     out = []
     for o in ops:
         o = list(o)
+        if o[0] == "EB":
+            o[1] = [tuple(c) for c in o[1]]
         if o[0] in ("R", "W"):
             kw = dict(o[1])
             if "column_fmt" in kw and kw["column_fmt"]:
@@ -273,15 +408,36 @@ def fix_ops(ops):
     return out
 
 
+EXPLAINED = ("two consecutive write() outputs differ", "second write() changed the object again")
+
+
 def finding_of(payload):
-    """known finding duplicate-wrap: ~Version holds two or more WRAP items and wrap= is given"""
+    """duplicate-wrap: ~Version holds >= 2 WRAP items, wrap= is given, AND the first failing clause is determinism / idempotence, AND
+    the two outputs (snapshots) are equal once the WRAP lines (items) are left out - i.e. the ONLY thing wrong is the WRAP item
+    appended on every call.  Anything else on such a payload is a new violation."""
     import re
     text = payload.get("text", "")
     m = re.search(r"~V[^\n]*\n(.*?)(?=\n\s*~|\Z)", text, re.S | re.I)
     body = m.group(1) if m else ""
     nwrap = sum(1 for ln in body.split("\n") if re.match(r"\s*WRAP\s*\.", ln, re.I))
     gives_wrap = any(o[0] == "W" and o[1].get("wrap") is not None for o in payload.get("ops", []))
-    return "duplicate-wrap" if nwrap >= 2 and gives_wrap else None
+    if not (nwrap >= 2 and gives_wrap):
+        return None
+    detail = {}
+    try:
+        bad = oracle(text, fix_ops(payload["ops"]), detail)
+    except Exception:
+        return None
+    if not bad or not bad.startswith(EXPLAINED) or "outs" not in detail:
+        return None
+    strip = lambda t: [ln for ln in t.split("\n") if not re.match(r"\s*WRAP\s*\.", ln, re.I)]
+
+    def nowrap(sn):
+        return {k: ([x for x in v if x[1].upper().split(":")[0] != "WRAP"] if k == "Version" else v) for k, v in sn.items()}
+    o, sn = detail["outs"], detail["snaps"]
+    if strip(o[0]) == strip(o[1]) and nowrap(sn[0]) == nowrap(sn[1]):
+        return "duplicate-wrap"
+    return None
 
 
 def replay(payload):
@@ -293,7 +449,7 @@ def search(ctx, res):
     import random
     rng = random.Random(ctx.seed + 81)
     for _ in range(6000):
-        text, ops, mode, consistent = gen_case(rng)
+        text, ops, mode, consistent, feats = gen_case(rng)
         bad = oracle(text, ops)
         if bad:
             yield {"payload": {"text": text, "ops": ops}, "what": bad}
